@@ -19,6 +19,18 @@ Theorem C17_cheb_diff_correct : forall N c,
 Proof. exact cheb_diff_correct. Qed.
 Print Assumptions C17_cheb_diff_correct.
 
+(* the operator returned on an interval [x0, x1] (D^p / fac^p, fac = (x1-x0)/2, off = (x1+x0)/2) differentiates the
+   series in the mapped basis T_j((y - off)/fac); pcomp_aff a b p is p(a X + b) (C17_pcomp_aff_value) *)
+Theorem C17_cheb_diff_mapped : forall N c fac off p, ~ fac == 0 ->
+  peq (pderiv_n p (pcomp_aff (/ fac) (- off / fac) (pseries chebT c N)))
+      (pcomp_aff (/ fac) (- off / fac) (pseries chebT (mv N (DTp N fac p) c) N)).
+Proof. exact cheb_diff_mapped. Qed.
+Print Assumptions C17_cheb_diff_mapped.
+
+Theorem C17_pcomp_aff_value : forall a b p y, peval (pcomp_aff a b p) y == peval p (a * y + b).
+Proof. exact peval_pcomp_aff. Qed.
+Print Assumptions C17_pcomp_aff_value.
+
 (* basis conversions represent the same polynomial *)
 Theorem C17_T2U_correct : forall N c, peq (pseries chebT c N) (pseries chebU (mv N T2U c) N).
 Proof. exact T2U_correct. Qed.
